@@ -52,8 +52,9 @@ UNARY_W = {"calc": 3, "proj": 3, "sel": 3, "dedup": 2, "sort": 3, "slice": 3}
 
 class C01(Profile):
     prop = "C01"
-    claims = {k: "C01" for k in ("rows_mismatch", "keys_mismatch", "columns_mismatch")}
+    claims = {k: "C01" for k in ("rows_mismatch", "keys_mismatch", "columns_mismatch", "no_recovery")}
     eval_new = True
+    recover_kinds = ("run",)
     fault_sites = ("leaf_iter", "udf")
     dn_rule = ("scenario = seeded iteration-engine op sequence over instrumented leaves; distinct = normalised "
                "library tree shape (operation/node types) of an evaluated entry; non-trivial = at least one of "
